@@ -356,7 +356,10 @@ func (v *SequenceDiagramVisitor) visitEndpoint(e *EndpointElement) error {
 	if !ok {
 		return fmt.Errorf("app %q not found", e.appName)
 	}
-	endpoint := e.endpoint(app)
+	endpoint, ok := app.Endpoints[e.endpointName]
+	if !ok {
+		return fmt.Errorf("endpoint %q not found in app %q", e.endpointName, e.appName)
+	}
 
 	appPatterns := syslutil.MakeStrSetFromAttr("patterns", app.Attrs)
 	endPointPatterns := syslutil.MakeStrSetFromAttr("patterns", endpoint.Attrs)
